@@ -101,6 +101,11 @@ def corpus(rng, per):
             mask[0] = 0
         add(IG.table_def(0, mask), ["EnumTable"], ("Debug", "Clone", "Copy", "PartialEq"))
         add(enum(0, [variant(IG.IDS[i]) for i in range(n)]), ["VariantArray", "VariantNames", "EnumCount", "EnumIter"])
+    # every derive ALONE on an enum (nothing else registers the `strum` helper attribute or brings a trait into scope for it)
+    for dv in ("VariantArray", "VariantNames", "EnumCount", "EnumIter", "AsRefStr", "IntoStaticStr", "Display", "EnumString", "EnumIs", "EnumTryAs",
+               "EnumMessage", "EnumProperty", "FromRepr"):
+        add(enum(0, [variant("Red"), variant("DarkBlue", ser=["db"]), variant("Off", dis=(dv != "VariantArray"))], style="snake_case"), [dv])
+    add(enum(0, [variant("Red"), variant("DarkBlue")]), ["EnumTable"], ("Debug", "Clone", "Copy", "PartialEq"))
     for k in range(per):
         E = RG.disc_def(rng, 0)
         E["dder"] = False
@@ -139,6 +144,10 @@ def source(E, derives, std, cfg):
     else:
         body = D.print_enum(E, derives, std_derives=std, strum_path=c["strum"])
     body = "pub const BASE: %s = 5;\n" % RG.rtype(E) + body
+    if cfg == "no_std" and E["id"] % 2 == 0 and not E.get("phf"):
+        # a free-standing artefact brings its own panic handler: nothing in its dependency graph may link std
+        # (not with strum's `phf` feature: the phf crate is pulled in with its own default features, which include std - observation O7)
+        body += "\n#[panic_handler]\nfn on_panic(_info: &::core::panic::PanicInfo) -> ! { loop {} }\n"
     if c["wrap"] == "shadow":
         # local modules named core / std in the caller's scope must not change what generated code resolves to
         return c["head"] + "pub mod scope {\n    pub mod core {}\n    pub mod std {}\n    pub mod alloc {}\n    pub mod strum_private {}\n" + \
